@@ -84,6 +84,10 @@ def run(ctx):
     for st in walk_no_nested(ars.node):
         if isinstance(st, ast.Assign) and isinstance(st.value, ast.Call) and call_name(st.value) == "Get_rank":
             rankname = st.targets[0].id
+        # ntask, rank, master = get_MPI_params_from_comm(comm)
+        if isinstance(st, ast.Assign) and isinstance(st.value, ast.Call) and call_name(st.value) == "get_MPI_params_from_comm" \
+                and isinstance(st.targets[0], ast.Tuple) and len(st.targets[0].elts) == 3 and isinstance(st.targets[0].elts[1], ast.Name):
+            rankname = st.targets[0].elts[1].id
     if rankname is None:
         ctx.error("allreduce_sum: rank = comm.Get_rank() not found")
         return
@@ -609,3 +613,60 @@ def run(ctx):  # noqa: F811
     r23_5(ctx, ctx.model)
     r23_6(ctx, ctx.model)
     r23_7(ctx, ctx.model)
+
+
+def r23_8(ctx, m):
+    from ..util import cfg_of, known_atoms
+    ctx.rule("R23.8", "_send may assert the type of its payload only for the kinds whose wire format depends on it (ndarray, Field, "
+                      "MultiField): partial sums of Python scalars change their type (bool + bool -> int), and an assertion that "
+                      "fails on the sending task leaves its partner waiting for ever", floor=1)
+    fi = m.func(MOD, "_send")
+    ctx.saw_func(fi)
+    cfg = cfg_of(fi)
+    dt = fi.params()[3] if len(fi.params()) > 3 else "dtype"
+    asserts = [n for n in cfg.nodes if n.kind == "stmt" and isinstance(n.ast, ast.Assert) and "isinstance" in src(n.ast.test) and dt in src(n.ast.test)]
+    key = f"{fi.key}::type assertion only for type-specific wire formats"
+    if not asserts:
+        ctx.ok("R23.8", key, "no type assertion on the payload", fi)
+        return
+    for n in asserts:
+        atoms = known_atoms(cfg, n.id)
+        guarded = any(pol and dt in src(t) and (" in " in src(t) or " is " in src(t)) for t, pol in atoms)
+        ctx.check("R23.8", key, guarded, f"`{src(n.ast)}` is reached for every payload type (guards {[src(t) for t, p in atoms]}): a partial sum whose "
+                                         "Python type differs from the summands' (True + True) raises on the sender only", fi, n.ast)
+    ctx.rule("R23.10", "the slot layout of the distributed sum is the ACTUAL one: the owner map and the [lo, hi) ranges are built from the "
+                       "gathered per-task counts (comm.allgather(len(vals)) and their running sums), never from the balanced "
+                       "partition of the total (shareRange) - the summands may be distributed in any order-preserving way", floor=1)
+    ar0 = m.func(MOD, "allreduce_sum")
+    t0 = src(ar0.node).replace(" ", "")
+    gathered = "comm.allgather(len(vals))" in t0
+    balanced = "shareRange(" in t0
+    if balanced:
+        ctx.bad("R23.10", f"{ar0.key}::layout from the gathered counts", "the ranges come from shareRange(total, ntask, t): only right for the balanced layout; "
+                "for partitions like (1, 3) the owner map and the padding are wrong (TypeError / IndexError / hang)", ar0)
+    else:
+        ctx.check("R23.10", f"{ar0.key}::layout from the gathered counts", True if gathered else None, None, ar0)
+    ctx.rule("R23.9", "allreduce_sum with a single summand in total, or none on some tasks: every task still reaches the final "
+                      "broadcast from the owner of slot 0 - no early return between the preamble and `_bcast` in the MPI path", floor=1)
+    ar = m.func(MOD, "allreduce_sum")
+    ctx.saw_func(ar)
+    cfg = cfg_of(ar)
+    rets = [n for n in cfg.nodes if n.kind == "stmt" and isinstance(n.ast, ast.Return)]
+    bad = []
+    for n in rets:
+        t = src(n.ast.value) if n.ast.value is not None else ""
+        atoms = known_atoms(cfg, n.id)
+        serial = any(pol and src(a) == "comm is None" for a, pol in atoms)
+        if not serial and "_bcast(" not in t:
+            bad.append(n)
+    ctx.check("R23.9", f"{ar.key}::every return of the MPI path is the broadcast of slot 0", not bad,
+              f"`{short(bad[0].ast, 60)}` (line {bad[0].ast.lineno}) returns without the broadcast: tasks that do not own the value return their padding" if bad else None,
+              ar, bad[0].ast if bad else None)
+
+
+_run_c23c = run
+
+
+def run(ctx):  # noqa: F811
+    _run_c23c(ctx)
+    r23_8(ctx, ctx.model)
